@@ -17,4 +17,17 @@ F0 == <<CF(1, "f1", "V50"), CF(2, "g1", "V50")>>
 F1 == <<CF(1, "f1", "V50"), CF(2, "g1", "V50"),
         CS(1, "AR-PACKAGES"), CN(3, "AR-PACKAGE", "a"), CS(4, "ELEMENTS"),
         CN(6, "SYSTEM-SIGNAL", "s"), CN(6, "I-SIGNAL", "i"), CS(9, "SYSTEM-SIGNAL-REF"), SR(11, 7)>>
+\* F2: reference graph: /a {s, s1, i -> /a/s, j -> /a/s, k -> /a/b (dangling)}, nested package /a/p {t}, r -> /a/p/t
+\*  3 AR-PACKAGES, 4 AR-PACKAGE a, 5 SN, 6 ELEMENTS, 7 SYSTEM-SIGNAL s, 8 SN, 9 SYSTEM-SIGNAL s1, 10 SN,
+\*  11 I-SIGNAL i, 12 SN, 13 I-SIGNAL j, 14 SN, 15 I-SIGNAL k, 16 SN, 17 ref(i), 18 ref(j), 19 ref(k)
+\*  20 AR-PACKAGES~2 (in a), 21 AR-PACKAGE p, 22 SN, 23 ELEMENTS, 24 SYSTEM-SIGNAL t, 25 SN, 26 I-SIGNAL r, 27 SN, 28 ref(r)
+F2 == <<CF(1, "f1", "V50"), CF(2, "g1", "V50"),
+        CS(1, "AR-PACKAGES"), CN(3, "AR-PACKAGE", "a"), CS(4, "ELEMENTS"),
+        CN(6, "SYSTEM-SIGNAL", "s"), CN(6, "SYSTEM-SIGNAL", "s1"),
+        CN(6, "I-SIGNAL", "i"), CN(6, "I-SIGNAL", "j"), CN(6, "I-SIGNAL", "k"),
+        CS(11, "SYSTEM-SIGNAL-REF"), CS(13, "SYSTEM-SIGNAL-REF"), CS(15, "SYSTEM-SIGNAL-REF"),
+        SR(17, 7), SR(18, 7), ST(19, PVal(<<"a", "b">>)),
+        CS(4, "AR-PACKAGES"), CN(20, "AR-PACKAGE", "p"), CS(21, "ELEMENTS"),
+        CN(23, "SYSTEM-SIGNAL", "t"), CN(23, "I-SIGNAL", "r"), CS(26, "SYSTEM-SIGNAL-REF"), SR(28, 24),
+        CS(2, "AR-PACKAGES")>>
 =============================================================================
